@@ -245,6 +245,14 @@ def _documents(ctx, n):
             ctx.count('doc:rejected')
             continue
         pre_ops = gen_claim_ops(r, root, r.choice([0, 0, 2, 6])) if r.random() < 0.6 else []
+        if r.random() < 0.4:
+            # non-default data fields: `indent_by` is copied by clone() and compared by _eq
+            for p, m in intro.walk_api(root):
+                if hasattr(type(m), 'indent_by') and not isinstance(m, base.RawTokenModel) and r.random() < 0.5:
+                    op = {'k': 'setattr', 'kind': 'indent-by', 'path': list(p), 'attr': 'indent_by',
+                          'val': {'t': 'lit', 'v': r.choice(['  ', '\t', ' ', '      '])}}
+                    edits.apply_op(root, op)
+                    pre_ops.append(op)
         ctx.count('doc:accepted')
         ctx.count(f'doc:auto_claim={auto}')
         if pre_ops:
